@@ -275,7 +275,7 @@ fn flattened_if_else(
     match acc.e2.as_ref() {
       expr::IfElseOrBlock::IfElse(nested) => {
         chain.push(FlattenedIfElseChainElement {
-          comments: NO_COMMENT_REFERENCE,
+          comments: acc.common.associated_comments,
           condition: acc.condition.as_ref(),
           e1: acc.e1.as_ref(),
         });
@@ -335,10 +335,20 @@ fn create_doc_for_if_else_customized_flattened(
       if i == 0 { NO_COMMENT_REFERENCE } else { comments },
       condition,
     ));
-    documents.push(create_doc_for_block(heap, comment_store, force_expanded, e1));
+    documents.push(create_opt_preceding_comment_doc(
+      heap,
+      comment_store,
+      e1.common.associated_comments,
+      create_doc_for_block(heap, comment_store, force_expanded, e1),
+    ));
     documents.push(Document::Text(" else "));
   }
-  documents.push(create_doc_for_block(heap, comment_store, force_expanded, final_else));
+  documents.push(create_opt_preceding_comment_doc(
+    heap,
+    comment_store,
+    final_else.common.associated_comments,
+    create_doc_for_block(heap, comment_store, force_expanded, final_else),
+  ));
   Document::concat(documents)
 }
 
